@@ -81,7 +81,7 @@ example : (getLibrary 9 demo libA none).1 = .error (.io, none) ∧
   rw [getLibrary_succ_eq]
   simp [demo, libLookup, libA, libB, libC, findFactory, instantiate, newLibrary, cacheInstance,
     evalLibraryDef, evalLibDecls, evalImport, evalImportSets, evalImportSet, getLibrary, Store.newFrame,
-    Store.root, libInsert, libPath, LibElem.toString, List.lookup, assocInsert]
+    Store.root, libInsert, libPath, fileKey, LibElem.toString, List.lookup, assocInsert]
 
 /-! ## 2. which factories a load may add -/
 
@@ -94,11 +94,11 @@ name, and nothing is registered for a name nobody asked for.) -/
 theorem new_factories_only_requested_names (fuel : Nat) (st : State) :
     (∀ name loc n f, libLookup (getLibrary fuel st name loc).2.factories n = some f →
       libLookup st.factories n = none →
-      Requested st name n ∧ ∃ t decls, st.files.lookup (libPath n) = some (.text t) ∧
+      Requested st name n ∧ ∃ t decls, st.files.lookup (fileKey st.dir (libPath n)) = some (.text t) ∧
         factoryOfText n t = .ok f ∧ f = .ast decls ∧ DefinesLibrary t n decls) ∧
     (∀ sets ρ n f, libLookup (evalImport fuel st sets ρ).2.factories n = some f →
       libLookup st.factories n = none →
-      (∃ s ∈ sets, Requested st (S.leaf s) n) ∧ ∃ t decls, st.files.lookup (libPath n) = some (.text t) ∧
+      (∃ s ∈ sets, Requested st (S.leaf s) n) ∧ ∃ t decls, st.files.lookup (fileKey st.dir (libPath n)) = some (.text t) ∧
         factoryOfText n t = .ok f ∧ f = .ast decls ∧ DefinesLibrary t n decls) := by
   have I := stepAt fuel
   constructor
@@ -121,14 +121,14 @@ exactly that factory, under `(d)` -/
 example (t : String) (ht : factoryOfText libD t = .ok (.ast [])) :
     let st : State := { demo with files := [("d.sld", .text t)] }
     libLookup (getLibrary 3 st libD none).2.factories libD = some (.ast []) ∧
-    Requested st libD libD ∧ ∃ t' decls, st.files.lookup (libPath libD) = some (.text t') ∧
+    Requested st libD libD ∧ ∃ t' decls, st.files.lookup (fileKey st.dir (libPath libD)) = some (.text t') ∧
       DefinesLibrary t' libD decls := by
   intro st
   have ht' : factoryOfText [LibElem.ident "d"] t = .ok (.ast []) := ht
   have hnew : libLookup (getLibrary 3 st libD none).2.factories libD = some (.ast []) := by
     rw [getLibrary_succ_eq]
     simp [st, demo, libLookup, libA, libB, libD, findFactory, instantiate, newLibrary, cacheInstance,
-      evalLibraryDef, evalLibDecls, Store.newFrame, libInsert, libPath, LibElem.toString, List.lookup, ht', pure, Except.pure]
+      evalLibraryDef, evalLibDecls, Store.newFrame, libInsert, libPath, fileKey, LibElem.toString, List.lookup, ht', pure, Except.pure]
   obtain ⟨hq, t', decls, h1, -, -, h2⟩ := (new_factories_only_requested_names 3 st).1 libD none libD _ hnew
     (by simp [st, demo, libLookup, libA, libB, libD])
   exact ⟨hnew, hq, t', decls, h1, h2⟩
@@ -139,7 +139,7 @@ appears, for `n` or for the other name, and no instance. The error is the one `f
 reports — `libNotFound` when the text was read to its end, as `from_char_stream` does. -/
 theorem wrong_name_file_not_found (fuel : Nat) (st : State) (n : LibName) (loc : Loc) (t : String)
     (hi : libLookup st.instances n = none) (hf : libLookup st.factories n = none)
-    (hfile : st.files.lookup (libPath n) = some (.text t))
+    (hfile : st.files.lookup (fileKey st.dir (libPath n)) = some (.text t))
     (hwrong : ¬ ∃ decls, DefinesLibrary t n decls) :
     (∃ e, factoryOfText n t = .error e ∧ getLibrary (fuel + 1) st n loc = (.error e, st) ∧
       (n ∉ st.inProgress → evalImportSet (fuel + 2) st (.direct n loc) = (.error e, st))) ∧
@@ -162,7 +162,7 @@ nothing is registered -/
 example : getLibrary 5 demo libD none = (.error (.libNotFound, none), demo) := by
   exact (wrong_name_file_not_found 4 demo libD none ""
     (by simp [demo, libLookup]) (by simp [demo, libLookup, libA, libB, libD])
-    (by simp [demo, libPath, libD, LibElem.toString, List.lookup])
+    (by simp [demo, libPath, fileKey, libD, LibElem.toString, List.lookup])
     (not_definesLibrary_empty libD)).2 (factoryOfText_empty libD)
 
 /-! ## 3. which instances a load may add -/
@@ -204,7 +204,7 @@ example : libLookup (getLibrary 9 demo libA none).2.instances libB = some [("x",
     rw [getLibrary_succ_eq]
     simp [demo, libLookup, libA, libB, libC, findFactory, instantiate, newLibrary, cacheInstance,
       evalLibraryDef, evalLibDecls, evalImport, evalImportSets, evalImportSet, getLibrary, Store.newFrame,
-      Store.root, libInsert, libPath, LibElem.toString, List.lookup, assocInsert]
+      Store.root, libInsert, libPath, fileKey, LibElem.toString, List.lookup, assocInsert]
   have hb : libLookup (getLibrary 9 demo libA none).2.instances libB = some [("x", .num (.int 1))] := by
     rw [h]; simp [libLookup]
   refine ⟨hb, by rw [h]; simp [libLookup, libA, libB], by rw [h]; simp [libLookup, libC, libB], ?_⟩
@@ -254,19 +254,19 @@ theorem refines_abstract_loader_partial (g : Loader.Graph) (nm : Loader.Name →
     (x : Loader.Name) (loc : Loc) :
     (∀ fa m, fa * (D + 10) ≤ m → (Loader.load fa g ls x).1 ≠ .fuel →
       ∃ r st', evalImportSet m st (.direct (nm x) loc) = (r, st') ∧
-        Match g nm st.files (Loader.load fa g ls x).1 r ∧ Corr g nm (Loader.load fa g ls x).2 st' ∧
-        st'.files = st.files) ∧
+        Match g nm st.files st.dir (Loader.load fa g ls x).1 r ∧ Corr g nm (Loader.load fa g ls x).2 st' ∧
+        st'.files = st.files ∧ st'.dir = st.dir) ∧
     (∀ m, (g.length + 1) * (D + 10) ≤ m →
       ∃ r st', evalImportSet m st (.direct (nm x) loc) = (r, st') ∧
-        Match g nm st.files (Loader.load (g.length + 1) g ls x).1 r ∧
+        Match g nm st.files st.dir (Loader.load (g.length + 1) g ls x).1 r ∧
         Corr g nm (Loader.load (g.length + 1) g ls x).2 st') := by
   have main : ∀ fa m, fa * (D + 10) ≤ m → (Loader.load fa g ls x).1 ≠ .fuel →
       ∃ r st', evalImportSet m st (.direct (nm x) loc) = (r, st') ∧
-        Match g nm st.files (Loader.load fa g ls x).1 r ∧ Corr g nm (Loader.load fa g ls x).2 st' ∧
-        st'.files = st.files := by
+        Match g nm st.files st.dir (Loader.load fa g ls x).1 r ∧ Corr g nm (Loader.load fa g ls x).2 st' ∧
+        st'.files = st.files ∧ st'.dir = st.dir := by
     intro fa m hm hne
     rw [Loader.load_eq_dfs'] at hne ⊢
-    exact simAt hD fa m hm ls.cache ls.inProgress st x loc hc rfl hne
+    exact simAt hD fa m hm ls.cache ls.inProgress st x loc hc ⟨rfl, rfl⟩ hne
   refine ⟨main, fun m hm => ?_⟩
   have hne : (Loader.load (g.length + 1) g ls x).1 ≠ .fuel := by
     rw [Loader.load_eq_dfs']
